@@ -574,6 +574,22 @@ def gen_C09(tier, seed, unit, nunits):
                 out.append(req('f_fmt', s, n, f, 'd', 'n', 0, 0, 0, '-', rng.randint(0, 12), x))
     return {'text': out}
 
+C11_PARTS = [('C01', 4), ('C02', 4), ('C06', 6), ('C07', 8), ('C18', 1), ('C04', 3), ('C05', 3), ('C03', 6), ('C12', 2), ('C08', 2), ('C09', 2)]
+def gen_C11(tier, seed, unit, nunits):
+    """the union corpus: every family's requests (sub-sampled in quick), run under both build profiles"""
+    out = {}
+    for prop, stride in C11_PARTS:
+        if prop not in PROPS or not PROPS[prop].get('in_c11', True):
+            continue
+        part = PROPS[prop]['gen'](tier, seed, unit, nunits)
+        for b, lines in part.items():
+            sel = lines if tier != 'quick' else lines[::stride]
+            out.setdefault(b, []).extend(sel)
+    if unit == 0:
+        for b, lines in out.items():
+            pass
+    return out
+
 PROPS = {
     'C01': dict(lean_modules=['SfxProps.C01'], bins=['arith'], profiles=['chk', 'rel'], gen=gen_C01, thorough_all_fracs=True),
     'C06': dict(lean_modules=['SfxProps.C06'], bins=['arith'], profiles=['chk', 'rel'], gen=gen_C06, thorough_all_fracs=True),
@@ -594,7 +610,10 @@ PROPS = {
     'C15': dict(lean_modules=['SfxProps.C15'], bins=['math'], profiles=['rel'], gen=gen_C15, oracle=True),
     'C16': dict(lean_modules=['SfxProps.C16'], bins=['math'], profiles=['rel'], gen=gen_C16, oracle=True),
     'C17': dict(lean_modules=['SfxProps.C17'], bins=['math'], profiles=['rel'], gen=gen_C17),
-    'C08': dict(lean_modules=['SfxProps.C08'], bins=['text'], profiles=['chk', 'rel'], gen=gen_C08),
-    'C09': dict(lean_modules=['SfxProps.C09'], bins=['text'], profiles=['chk', 'rel'], gen=gen_C09),
+    'C08': dict(lean_modules=['SfxProps.C08'], bins=['text'], profiles=['chk', 'rel'], gen=gen_C08, in_c11=False),
+    'C09': dict(lean_modules=['SfxProps.C09'], bins=['text'], profiles=['chk', 'rel'], gen=gen_C09, in_c11=False),
+    'C11': dict(lean_modules=['SfxProps.C11'], bins=['arith', 'wrap', 'conv', 'math'], profiles=['chk', 'rel'], gen=gen_C11,
+                rule='union of the request corpora of C01 C02 C06 C07 C18 C04 C05 C03 C12 (sub-sampled in quick), each request executed by the harness built with and '
+                     'without debug assertions/overflow checks and compared with the model projections; non-trivial = some operand magnitude > 1'),
     'C02': dict(lean_modules=['SfxProps.C02'], bins=['arith'], profiles=['chk', 'rel'], gen=gen_C02, thorough_all_fracs=True),
 }
